@@ -55,7 +55,7 @@ Lemma WF_push : forall t s, WF s -> (forall j, t_prev t = Some j -> j < length (
 Proof.
   intros t s [W1 W2] Ht. split; intros; autorewrite with st in *; cbn in *.
   - destruct (Nat.eqb_spec k (length (txns s))); subst; eauto.
-  - rewrite app_length. cbn. destruct (t_root t); [apply W2 in H|inversion H]; lia.
+  - destruct (t_root t); [apply W2 in H|inversion H]; lia.
 Qed.
 
 Lemma good_warn : good warn.
@@ -124,18 +124,27 @@ Qed.
 Lemma prev_deact_nested : forall j k w s, prev j (snd (deact_nested k w s)) = prev j s.
 Proof. intros. unfold deact_nested, warn. destruct (opt_is _ _); [|destruct w]; reflexivity. Qed.
 
+Lemma cancel_unfold : forall f k s,
+  cancel (S f) k s =
+  match deact_nested k true (set_active k false s) with
+  | (Ok, s2) => match prev k s2 with Some p => cancel f p s2 | None => (Ok, s2) end
+  | r => r
+  end.
+Proof. reflexivity. Qed.
+
 Lemma good_cancel : forall fuel k s, WF s -> k < fuel ->
   WF (snd (cancel fuel k s)) /\ fst (cancel fuel k s) <> OutOfFuel.
 Proof.
   induction fuel; intros k s W Hk; [lia|].
-  cbn [cancel]. unfold bind at 1. cbn beta iota.
-  set (s1 := set_active k false s). assert (W1 : WF s1) by (apply WF_set_active, W).
-  unfold bind. destruct (good_deact_nested k true s1 W1) as [W2 F2].
-  pose proof (prev_deact_nested k k true s1) as P.
-  destruct (deact_nested k true s1) as [[| e |] s2]; cbn in *; auto; try congruence.
+  rewrite cancel_unfold.
+  assert (W1 : WF (set_active k false s)) by (apply WF_set_active, W).
+  destruct (good_deact_nested k true _ W1) as [W2 F2].
+  pose proof (prev_deact_nested k k true (set_active k false s)) as P.
+  destruct (deact_nested k true (set_active k false s)) as [[| e |] s2]; cbn [fst snd] in *; auto; try congruence.
   destruct (prev k s2) as [p|] eqn:E.
-  - apply IHfuel; auto. rewrite P in E. unfold s1 in E. rewrite prev_set_active in E.
-    destruct W as [W _]. apply W in E. lia.
+  - apply IHfuel; auto. rewrite prev_set_active in P.
+    assert (E' : prev k s = Some p) by congruence.
+    destruct W as [W _]. apply W in E'. lia.
   - cbn. split; [auto|discriminate].
 Qed.
 Lemma good_cancel_nested : good cancel_nested.
@@ -203,7 +212,8 @@ Proof. intros k. apply good_pure; [discriminate|]. intros. apply WF_set_ctx, WF_
 Lemma good_t_exit : forall k e, good (t_exit k e).
 Proof.
   intros k e s W. unfold t_exit.
-  set (fin := fun s1 : st => (Ok, upd_txn k (set_ctx_t false None) (if _ then s1 else set_ctx (outer k s1) s1))).
+  set (fin := fun s1 : st => (Ok, upd_txn k (set_ctx_t false None)
+     (if negb (subject k s) || negb (opt_is (c_ctx s) k) then s1 else set_ctx (outer k s1) s1))).
   assert (Gf : good fin).
   { apply good_pure; [discriminate|]. intros s1 W1. apply WF_set_ctx_t. destruct (_ || _); [auto|apply WF_set_ctx, W1]. }
   destruct (_ && _).
@@ -211,7 +221,7 @@ Proof.
     destruct (good_t_commit k s1 W1) as [W2 F2].
     destruct (t_commit k s1) as [[| x |] s2]; cbn in *; auto; try congruence.
     destruct (good_t_rollback k s2 W2) as [W3 F3].
-    destruct (t_rollback k s2) as [[| y |] s3]; cbn in *; auto. split; [auto|discriminate].
+    destruct (t_rollback k s2) as [[| y |] s3]; cbn in *; split; auto; discriminate.
   - apply good_finally; [|exact Gf|exact W]. intros s1 W1.
     destruct (negb (active k s1)); [|apply good_t_rollback, W1].
     destruct (installed k s1); [apply good_ok, W1|apply good_t_close, W1].
